@@ -316,7 +316,9 @@ func runC01(c *ctx) {
 			}
 			c01Eval(c, c01Case{Source: "constructors", Msg: g.Msg(it, true)})
 		case 2:
-			g := gen.New(r, gen.Profile{MaxDepth: 1 + r.Intn(4), Vars: true, Ellipsis: r.Bool(), Budget: 300})
+			// bracket-free base names when ellipses are present, so that generated names (x[1]) cannot collide with existing ones
+			ell := r.Bool()
+			g := gen.New(r, gen.Profile{MaxDepth: 1 + r.Intn(4), Vars: true, Ellipsis: ell, PlainNames: ell, Budget: 300})
 			tpl, counts, sub, filled := c01Template(g)
 			m := g.Msg(filled, true)
 			m.Name = ""
